@@ -35,10 +35,14 @@ pub enum Kind {
     ClonedIter,
     CopiedSlice,
     CopiedIter,
+    /// `Vec<Plain>::con_iter()`: the underlying iterator of `CopiedSlice`
+    PlainSlice,
+    /// `ConIterOfIter` over `slice::Iter<Plain>`: the underlying iterator of `CopiedIter`
+    PlainIter,
 }
 
 impl Kind {
-    pub const ALL: [Kind; 14] = [
+    pub const ALL: [Kind; 16] = [
         Kind::Slice,
         Kind::SliceRef,
         Kind::VecRef,
@@ -53,11 +57,17 @@ impl Kind {
         Kind::ClonedIter,
         Kind::CopiedSlice,
         Kind::CopiedIter,
+        Kind::PlainSlice,
+        Kind::PlainIter,
     ];
     pub fn is_iter(self) -> bool {
         matches!(
             self,
-            Kind::IterOwned | Kind::IterRef | Kind::ClonedIter | Kind::CopiedIter
+            Kind::IterOwned
+                | Kind::IterRef
+                | Kind::ClonedIter
+                | Kind::CopiedIter
+                | Kind::PlainIter
         )
     }
     pub fn known_size(self) -> bool {
@@ -73,7 +83,13 @@ impl Kind {
     pub fn yields_refs(self) -> bool {
         matches!(
             self,
-            Kind::Slice | Kind::SliceRef | Kind::VecRef | Kind::ArrayRef | Kind::IterRef
+            Kind::Slice
+                | Kind::SliceRef
+                | Kind::VecRef
+                | Kind::ArrayRef
+                | Kind::IterRef
+                | Kind::PlainSlice
+                | Kind::PlainIter
         )
     }
     pub fn is_adaptor(self) -> bool {
@@ -81,6 +97,16 @@ impl Kind {
             self,
             Kind::ClonedSlice | Kind::ClonedIter | Kind::CopiedSlice | Kind::CopiedIter
         )
+    }
+    /// the reference-yielding iterator an adaptor kind wraps (C13 twin)
+    pub fn underlying(self) -> Option<Kind> {
+        match self {
+            Kind::ClonedSlice => Some(Kind::VecRef),
+            Kind::ClonedIter => Some(Kind::IterRef),
+            Kind::CopiedSlice => Some(Kind::PlainSlice),
+            Kind::CopiedIter => Some(Kind::PlainIter),
+            _ => None,
+        }
     }
     pub fn is_cloned(self) -> bool {
         matches!(self, Kind::ClonedSlice | Kind::ClonedIter)
@@ -1125,6 +1151,22 @@ pub fn execute(cfg: &RunCfg, run_no: u32) -> RunRecord {
                 cfg,
                 Probe::new(data.iter(), n, cfg.hint).into_con_iter().copied(),
             );
+            rec.source_intact = plain_intact(&data, seed);
+            o
+        }
+        Kind::PlainSlice => {
+            let data = mk_plain();
+            rec.base_addr = data.as_ptr() as usize;
+            rec.elem_size = std::mem::size_of::<Plain>();
+            let o = drive(cfg, data.con_iter());
+            rec.source_intact = plain_intact(&data, seed);
+            o
+        }
+        Kind::PlainIter => {
+            let data = mk_plain();
+            rec.base_addr = data.as_ptr() as usize;
+            rec.elem_size = std::mem::size_of::<Plain>();
+            let o = drive(cfg, Probe::new(data.iter(), n, cfg.hint).into_con_iter());
             rec.source_intact = plain_intact(&data, seed);
             o
         }
